@@ -22,7 +22,8 @@
 (*                                                                         *)
 (* Lengths in part B are integers in units of len_scale/16 ("u"); the grid *)
 (* lag k/8 * len_scale is u = 2k.  Anisotropy ratios are powers of two     *)
-(* given by their exponent, angles are quarter turns.                      *)
+(* given by their exponent; angles are quarter turns or Pythagorean angles *)
+(* (cos, sin in {3/5, 4/5}), so every rotation matrix is rational.         *)
 (***************************************************************************)
 EXTENDS DeriveQ, FiniteSets
 
